@@ -206,6 +206,55 @@ CONTRACTS = [
         props=["C01", "C09"],
     ),
 ]
+def replay_um(inp):
+    import numpy as np
+    from lightworks.sdk.circuit.components import UnitaryMatrix
+    s, n = inp["self"], inp["n_modes"]
+    U = s["unitary"]
+    if not (isinstance(U, dict) and isinstance(U.get("mat"), list)):
+        return None
+    k = len(U["mat"])
+    M = np.array([[complex(a, b) for a, b in row] for row in U["mat"]]).reshape(k, k)
+    m = s["mode"]
+    if not (0 <= m and m + k <= n and n <= 8):
+        return None
+    comp = UnitaryMatrix(m, np.identity(k, dtype=complex), "U")
+    comp.unitary = M
+    got = comp.get_unitary(n)
+    for i in range(n):
+        for j in range(n):
+            want = M[i - m, j - m] if (m <= i < m + k and m <= j < m + k) else (1 if i == j else 0)
+            if got[i, j] != want:
+                return f"UnitaryMatrix(mode={m}, {k}x{k}).get_unitary({n})[{i},{j}] = {got[i, j]}, expected {want}"
+    return None
+
+
+def enum_um():
+    for k in (1, 2):
+        for m in range(3):
+            for n in range(m + k, m + k + 2):
+                yield {"self": {"mode": m, "unitary": {"mat": [[[i * k + j + 1, i - j] for j in range(k)] for i in range(k)]}}, "n_modes": n}
+
+
+UM = Contract(
+    target=f"{F}:UnitaryMatrix.get_unitary",
+    types={"self": "obj:UnitaryMatrix{mode:int;unitary:matsq;label:'U'}", "n_modes": "int"},
+    requires=["0 <= self.mode and self.mode + self.unitary.shape[0] <= n_modes"],
+    modifies=[],
+    ensures={
+        "dims": "result.shape[0] == n_modes and result.shape[1] == n_modes",
+        # the documented embedding: the block on modes [mode, mode + dim), identity elsewhere
+        "entries": "forall((i,j), implies(0 <= i and i < n_modes and 0 <= j and j < n_modes, mat_at(result,i,j) == "
+                   "(mat_at(self.unitary, i - self.mode, j - self.mode) if (self.mode <= i and i < self.mode + self.unitary.shape[0] and "
+                   "self.mode <= j and j < self.mode + self.unitary.shape[0]) else cplx(1 if i == j else 0, 0))))",
+    },
+    raises={},
+    result_type="matsq",
+    replay=replay_um,
+    props=["C01"],
+)
+UM.enum = enum_um
+CONTRACTS.append(UM)
 PARAM = "obj:Parameter{__value:real;__min_bound:none;__max_bound:none;label:none}"
 
 
